@@ -203,6 +203,33 @@ def task_nested(ctx, length, lengths, out_shape, with_grad):
   shapes = [(), (), (length,), (length, 2)]
   conf = dict(length=length, nested_lengths=list(lengths), per_step_output_shape=list(out_shape))
   decide_equal(ctx, 'nested_checkpoint_scan.carry_and_outputs_equal_flat_scan', conf, impl, spec, shapes, logic='QF_UFNRA')
+  # interface parity with lax.scan: explicit `length`, identity checkpoint function, and scans without scanned inputs (xs=None)
+  def impl_len(c0, c1, p, q):
+    return ti.nested_checkpoint_scan(f, (c0, c1), pack(p, q), length, nested_lengths=list(lengths), checkpoint_fn=lambda g: g)
+  decide_equal(ctx, 'nested_checkpoint_scan.explicit_length_and_identity_checkpoint', conf, impl_len, spec, shapes, logic='QF_UFNRA')
+
+  def g(c, _):
+    c2 = (uf('scan_a', c[0], c[1], c[1]), uf('scan_b', c[1], c[0], c[0]))
+    return c2, uf('out_s', c[0], c[1])
+
+  def impl_none(c0, c1):
+    return ti.nested_checkpoint_scan(g, (c0, c1), None, length, nested_lengths=list(lengths))
+
+  def spec_none(c0, c1):
+    return jax.lax.scan(g, (c0, c1), None, length)
+  try:
+    decide_equal(ctx, 'nested_checkpoint_scan.no_scanned_inputs', conf, impl_none, spec_none, [(), ()], logic='QF_UFNRA')
+  except Exception as e:  # noqa: BLE001
+    ctx.clause('nested_checkpoint_scan.no_scanned_inputs', 'inconclusive', config=dict(conf, raised=f'{type(e).__name__}: {str(e)[:100]}'), queries=0)
+    ctx.res['notes'].append(f'nested_checkpoint_scan(xs=None) raised {type(e).__name__}')
+  bad_len = False
+  try:
+    ti.nested_checkpoint_scan(f, (0.0, 0.0), pack(jnp.zeros(length), jnp.zeros((length, 2))), length + 1, nested_lengths=list(lengths))
+  except ValueError:
+    bad_len = True
+  ctx.clause('nested_checkpoint_scan.inconsistent_length_rejected', 'discharged' if bad_len else 'failed', config=conf, queries=0)
+  if not bad_len:
+    ctx.violation('nested_checkpoint_scan.inconsistent_length_rejected', dict(config=conf), {}, f'length={length + 1} accepted with nested_lengths={list(lengths)}')
   if with_grad:
     w = np.arange(1.0, length + 1)
 
